@@ -27,6 +27,7 @@ where
 {
     pub pos: u64,
     pub start: u64,
+    pub finished: bool,
     pub key: &'a K,
     pub data: &'a Data,
     pub storage: &'a Storage<D>,
@@ -43,7 +44,7 @@ where
     type Item = Result<(K, T), DbError>;
 
     fn next(&mut self) -> Option<Self::Item> {
-        if self.data.capacity() == 0 {
+        if self.data.capacity() == 0 || self.finished {
             return None;
         }
 
@@ -56,9 +57,16 @@ where
                 self.pos + 1
             };
 
+            if self.start == self.pos {
+                self.finished = true;
+            }
+
             match self.data.state(self.storage, current_pos) {
                 Err(error) => return Some(Err(error)),
-                Ok(MapValueState::Empty) => break,
+                Ok(MapValueState::Empty) => {
+                    self.finished = true;
+                    break;
+                }
                 Ok(MapValueState::Deleted) => {}
                 Ok(MapValueState::Valid) => {
                     let key = match self.data.key(self.storage, current_pos) {
@@ -76,7 +84,7 @@ where
                 }
             }
 
-            if self.start == self.pos {
+            if self.finished {
                 break;
             }
         }
@@ -211,6 +219,7 @@ where
         MultiMapIterator {
             pos,
             start: pos,
+            finished: false,
             key,
             data: &self.data,
             storage,
